@@ -191,6 +191,10 @@ func c04Batch(c *c04Case) []Req {
 				// tag in the middle of the key
 				key = Bin(fmt.Sprintf("pre%d{%s}post%d", i, refmodel.TagForSlot(s), k))
 			}
+			if (c.Mask>>uint(24+k))&1 == 1 {
+				// a key whose hashed part is not ASCII (UTF-8 text)
+				key = Bin(fmt.Sprintf("{%s}\u00e9%d.%d", refmodel.WideTagForSlot(s), i, k))
+			}
 			cased := []byte(name)
 			if (c.Mask>>uint(8+k))&1 == 1 {
 				cased = []byte(refmodel.ASCIILower(name))
@@ -465,6 +469,9 @@ type c20Case struct {
 	// Failover: before the reads are counted, the first master that has a replica swaps roles with it in place
 	// (a manual failover: both nodes stay up); the demoted master is a healthy replica from then on
 	Failover bool `json:"failover_first,omitempty"`
+	// Syncing: one replica is still loading its data set when the proxy first sees it (INFO: loading), and is
+	// healthy from 1.5 s after start; 3.5 s later it counts as a healthy replica
+	Syncing bool `json:"syncing_at_first_sight,omitempty"`
 }
 
 func c20Gen(t *rapid.T) c20Case {
@@ -483,6 +490,7 @@ func c20Gen(t *rapid.T) c20Case {
 	c.Mask = rapid.Uint64().Draw(t, "mask")
 	c.Outage = rapid.IntRange(0, 3).Draw(t, "outage") == 0
 	c.Failover = !c.Outage && rapid.IntRange(0, 2).Draw(t, "failover") == 0
+	c.Syncing = !c.Outage && !c.Failover && c.Topo.nodes() >= 4 && rapid.IntRange(0, 2).Draw(t, "syncing") == 0
 	return c
 }
 
@@ -495,8 +503,22 @@ func c20Exec(c *c20Case) []Discrepancy {
 	}
 	defer cl.Close()
 	var f *Fixture
+	var excluded map[int]bool
+	syncing := -1
+	if c.Syncing {
+		// the last replica of the description (never the one named in the seed list when there are others)
+		for i := range topo.Nodes {
+			if !topo.Nodes[i].Master {
+				syncing = topo.Nodes[i].Node
+			}
+		}
+		if syncing >= 0 {
+			cl.SetInfo(syncing, true, true, true)
+			excluded = map[int]bool{syncing: true}
+		}
+	}
 	for attempt := 0; attempt < 3; attempt++ {
-		f, err = startFixtureWith(cl, topo, c.Topo.Cfg, []int{0, len(c.Topo.Reps)}, nil)
+		f, err = startFixtureWith(cl, topo, c.Topo.Cfg, []int{0, len(c.Topo.Reps)}, excluded)
 		if err == nil {
 			break
 		}
@@ -509,6 +531,13 @@ func c20Exec(c *c20Case) []Discrepancy {
 	evidence.For("C20").Add("proxy_starts", 1)
 	cfg := c.Topo.Cfg
 	var ds []Discrepancy
+	if syncing >= 0 {
+		time.Sleep(1500 * time.Millisecond)
+		cl.SetInfo(syncing, false, true, true)
+		f.Owners = f.Topo.Expected(nil)
+		evidence.For("C20").Add("replicas_that_finished_syncing_after_start", 1)
+		time.Sleep(3500 * time.Millisecond)
+	}
 	if c.Outage {
 		if msg := c20Outage(f, c); msg == caseDiscarded {
 			return nil
@@ -701,6 +730,9 @@ func TestC20(t *testing.T) {
 		}
 		if c.Failover {
 			cls = append(cls, "after-an-in-place-failover")
+		}
+		if c.Syncing {
+			cls = append(cls, "replica-still-syncing-at-first-sight")
 		}
 		rec.Case(&c, true, dedup(cls)...)
 		report(t, "C20", &c, c20Exec(&c))
